@@ -269,6 +269,96 @@ fn protocols(args: &Args) -> i32 {
 	0
 }
 
+/// Directed schedule for the orphan-pool insertion window predicted by ChainConc.tla (StepK / StepKA):
+/// thread 1 delivers a child whose parent body is missing and is slowed down right before it
+/// inserts the child into the orphan pool; thread 2 delivers the parent meanwhile (its retry loop
+/// finds the pool still empty). Reports whether the child ends up stranded.
+fn race(args: &Args) -> i32 {
+	use vcommon::chainkit as ck;
+	let dir = args.req("work").to_string();
+	let delay = args.u64("delay-us", 600_000);
+	let _ = std::fs::remove_dir_all(&dir);
+	std::fs::create_dir_all(&dir).unwrap();
+	// blocks are built on a builder node, the node under test gets headers first
+	let builder = ck::init_chain(&format!("{}/builder", dir)).unwrap();
+	let blocks = ck::grow_chain(&builder, 1, 8, 0);
+	let chain = Arc::new(ck::init_chain(&format!("{}/node", dir)).unwrap());
+	for b in &blocks[..3] {
+		chain.process_block(b.clone(), Options::SKIP_POW).unwrap();
+	}
+	let parent = blocks[3].clone();
+	let child = blocks[4].clone();
+	chain.process_block_header(&parent.header, Options::SKIP_POW).unwrap();
+	chain.process_block_header(&child.header, Options::SKIP_POW).unwrap();
+	let tx_addr = Arc::as_ptr(&chain.txhashset()) as *const () as usize;
+	let hp_addr = Arc::as_ptr(&chain.header_pmmr()) as *const () as usize;
+	// find the orphan pool's lock: deliver an unrelated far-ahead orphan with tracing on; the pool is the
+	// first write lock (other than the chain locks) that is held while another write lock is taken
+	for b in &blocks[5..8] {
+		chain.process_block_header(&b.header, Options::SKIP_POW).unwrap();
+	}
+	let _ = verif::take_events();
+	verif::set_thread_tag(9);
+	verif::trace(true);
+	let _ = chain.process_block(blocks[7].clone(), Options::SKIP_POW);
+	verif::trace(false);
+	let ev = verif::take_events();
+	let mut held: Vec<usize> = vec![];
+	let mut pool_lock = 0usize;
+	for e in &ev {
+		match e.kind {
+			"w_acq" => {
+				if let Some(outer) = held.last() {
+					if *outer != tx_addr && *outer != hp_addr && e.id != tx_addr && e.id != hp_addr && pool_lock == 0 {
+						pool_lock = *outer;
+					}
+				}
+				held.push(e.id);
+			}
+			"w_rel" => {
+				if let Some(p) = held.iter().rposition(|x| *x == e.id) {
+					held.remove(p);
+				}
+			}
+			_ => {}
+		}
+	}
+	if pool_lock == 0 {
+		println!("{}", json!({"error": "orphan pool lock not identified"}));
+		return 0;
+	}
+	verif::delay_only_locks(&[pool_lock]);
+	verif::delay_only_thread(1);
+	verif::delay_other_writes(delay, &[tx_addr, hp_addr]);
+	let c1 = chain.clone();
+	let ch = child.clone();
+	let t1 = std::thread::spawn(move || {
+		global::set_local_chain_type(ChainTypes::AutomatedTesting);
+		verif::set_thread_tag(1);
+		class_of(&c1.process_block(ch, Options::SKIP_POW))
+	});
+	let c2 = chain.clone();
+	let pa = parent.clone();
+	let d2 = delay;
+	let t2 = std::thread::spawn(move || {
+		global::set_local_chain_type(ChainTypes::AutomatedTesting);
+		verif::set_thread_tag(2);
+		std::thread::sleep(Duration::from_micros(d2 / 4));
+		class_of(&c2.process_block(pa, Options::SKIP_POW))
+	});
+	let r1 = t1.join().unwrap_or_else(|_| "panic".into());
+	let r2 = t2.join().unwrap_or_else(|_| "panic".into());
+	verif::delay_other_writes(0, &[]);
+	verif::delay_only_thread(0);
+	verif::delay_only_locks(&[]);
+	let stranded = chain.is_orphan(&child.hash()) && chain.get_block(&parent.hash()).is_ok() && chain.get_block(&child.hash()).is_err();
+	println!("{}", json!({"child_result": r1, "parent_result": r2, "head_height": chain.head().unwrap().height,
+		"child_in_orphan_pool": chain.is_orphan(&child.hash()), "parent_stored": chain.get_block(&parent.hash()).is_ok(),
+		"child_stored": chain.get_block(&child.hash()).is_ok(), "stranded": stranded}));
+	let _ = std::fs::remove_dir_all(&dir);
+	0
+}
+
 fn main() {
 	quiet_panics();
 	global::set_local_chain_type(ChainTypes::AutomatedTesting);
@@ -277,6 +367,9 @@ fn main() {
 	let args = Args::parse(&a);
 	if args.pos.get(0).map(|s| s.as_str()) == Some("protocols") {
 		std::process::exit(protocols(&args));
+	}
+	if args.pos.get(0).map(|s| s.as_str()) == Some("race") {
+		std::process::exit(race(&args));
 	}
 	let cases = read_ndjson(args.req("cases"));
 	let mut out = NdWriter::create(args.req("out"));
